@@ -179,7 +179,7 @@ enum Sent {
 
 impl Case {
     fn transmit(&mut self) -> Sent {
-        let mut buf = [0u8; 256];
+        let mut buf = [0xA5u8; 256]; // a dirty transmit buffer (real PHYs reuse theirs)
         let r = self
             .master
             .transmit_telegram(Instant::ZERO, &self.fdl, fdl::TelegramTx::new(&mut buf), fdl::HighPrioOnly::No);
@@ -290,7 +290,7 @@ fn scan(tg: &Tg) -> String {
         // walk the scanner to address SLAVE
         let mut sent_to = None;
         for _ in 0..600 {
-            let mut buf = [0u8; 256];
+            let mut buf = [0xA5u8; 256]; // a dirty transmit buffer (real PHYs reuse theirs)
             if let Some(r) = sc.transmit_telegram(Instant::ZERO, &fdl, fdl::TelegramTx::new(&mut buf), fdl::HighPrioOnly::No) {
                 let a = r.expects_reply().expect("scanner request expects a reply");
                 if a == SLAVE {
